@@ -16,10 +16,12 @@ ruamel.yaml / PyYAML / fastjsonschema and are decided only by the exhaustive enu
 import SpsdkVerif.Model.ConfigArea
 import SpsdkVerif.Proofs.ConfigArea
 import SpsdkVerif.Generated.RegLayouts
+import SpsdkVerif.Generated.RegDetails
 import SpsdkVerif.Generated.PfrFuns
 
 namespace SpsdkVerif.C12
 open SpsdkVerif SpsdkVerif.CfgArea SpsdkVerif.Misc SpsdkVerif.BinImg
+open SpsdkVerif.Regs (leEnc_length leDec_leEnc)
 
 set_option maxRecDepth 100000
 
@@ -127,6 +129,97 @@ theorem gen_layouts_wellformed (l : Layout) (hl : l ∈ Generated.RegLayouts.lay
   have := h l hl
   rw [hk, Bool.false_or] at this
   exact layoutWFb_sound l this
+
+
+/-! ## the second generated table: initial values, names, access, enum tables (every fact below is evaluated by the kernel over the
+    whole database; a typo in a register JSON - a reset value that does not fit, an enum value wider than its field, a renamed
+    computed bit-field, a duplicated name - makes the corresponding theorem fail to check) -/
+
+def layoutsD : List (Layout × LayoutD) := Generated.RegLayouts.layouts.zip Generated.RegDetails.details
+
+/-- Register names / uids.  Full-strength statement (false on the pinned tree): `regNamesB` for every layout.
+    Refuted by ifr_cmactable_a0.json (six registers named 'Reserved 0x00012' with uid 'Reserved00012', three with uid 'field000');
+    known finding C12-cmactable-duplicate-register-names. -/
+def knownDuplicateRegNames : List String :=
+  ["devices/kw45b41z8/ifr_cmactable_a0.json", "devices/kw47b42zb7/ifr_cmactable_a0.json"]
+
+/-- Bit-field names inside one register.  Full-strength statement (false on the pinned tree): `fieldNamesB` for every layout.
+    Refuted by XMCD configOption1 ('reserved' twice / three times) and the i.MX91/95 fuse words with several 'Restricted'
+    fields; known finding C12-duplicate-bitfield-names. -/
+def knownDuplicateFieldNames : List String :=
+  ["common/xmcd/flexspi_ram_simplified.json", "common/xmcd/xspi_ram_simplified.json",
+   "devices/mimx9131/fuses.json", "devices/mimx9596/fuses.json"]
+
+/-- all per-layout facts about the details table in one Boolean (one kernel evaluation of the 0.7 MB table) -/
+def detailsOkB (ld : Layout × LayoutD) : Bool :=
+  alignedB ld.1 ld.2 && resetsB ld.1 ld.2 && enumsFitB ld.1 ld.2 && computedTargetsB ld.1 ld.2 &&
+  (knownDuplicateRegNames.contains ld.1.name || regNamesB ld.1 ld.2) &&
+  (knownDuplicateFieldNames.contains ld.1.name || fieldNamesB ld.2)
+
+theorem gen_details_ok :
+    Generated.RegLayouts.layouts.length = Generated.RegDetails.details.length ∧ layoutsD.all detailsOkB = true := by
+  constructor <;> decide +kernel
+
+theorem details_all {p : Layout × LayoutD → Bool} (h : ∀ ld, detailsOkB ld = true → p ld = true) :
+    layoutsD.all p = true := by
+  have := gen_details_ok.2
+  rw [List.all_eq_true] at this ⊢
+  exact fun ld hld => h ld (this ld hld)
+
+/-- both tables describe the same registers, the same number of bit-fields per register and the same computed-field rules -/
+theorem gen_details_aligned : layoutsD.all (fun ld => alignedB ld.1 ld.2) = true :=
+  details_all (fun ld h => by simp only [detailsOkB, Bool.and_eq_true] at h; exact h.1.1.1.1.1)
+
+/-- every initial register value fits its register; every bit-field reset value fits its field (after its SHIFT_RIGHT
+    processor) and is exactly what the field reads in the initial register value -/
+theorem gen_resets_fit : layoutsD.all (fun ld => resetsB ld.1 ld.2) = true :=
+  details_all (fun ld h => by simp only [detailsOkB, Bool.and_eq_true] at h; exact h.1.1.1.1.2)
+
+/-- every enum value of every bit-field fits the field: a template or configuration naming it loads -/
+theorem gen_enums_fit : layoutsD.all (fun ld => enumsFitB ld.1 ld.2) = true :=
+  details_all (fun ld h => by simp only [detailsOkB, Bool.and_eq_true] at h; exact h.1.1.1.2)
+
+/-- the computed bit-field the database names is exactly the bits the rule function writes (inverse half-word: bits 16..31 of a
+    32-bit register, inverse byte: bits 8..15), and it is hidden in the loaded object -/
+theorem gen_computed_targets : layoutsD.all (fun ld => computedTargetsB ld.1 ld.2) = true :=
+  details_all (fun ld h => by simp only [detailsOkB, Bool.and_eq_true] at h; exact h.1.1.2)
+
+theorem gen_reg_names_unique_partial :
+    layoutsD.all (fun ld => knownDuplicateRegNames.contains ld.1.name || regNamesB ld.1 ld.2) = true :=
+  details_all (fun ld h => by simp only [detailsOkB, Bool.and_eq_true] at h; exact h.1.2)
+
+theorem gen_field_names_unique_partial :
+    layoutsD.all (fun ld => knownDuplicateFieldNames.contains ld.1.name || fieldNamesB ld.2) = true :=
+  details_all (fun ld h => by simp only [detailsOkB, Bool.and_eq_true] at h; exact h.2)
+
+/-- the seal words are whole 32-bit registers of the page -/
+theorem gen_seal_words_are_registers : Generated.RegLayouts.layouts.all sealRegsB = true := by decide +kernel
+
+/-- the XMCD header word of every XMCD layout has the bit-fields the model's `xmcdHeader` assumes:
+    size[0:12] type[12:16] instance[16:20] interface[20:24] version[24:28] tag[28:32] -/
+theorem gen_xmcd_header_fields :
+    (Generated.RegLayouts.layouts.filter (·.kind == 7)).all (fun l =>
+      match l.regs with
+      | r :: _ => r.off == 0 && r.width == 32 && r.fields == [⟨0, 12⟩, ⟨12, 4⟩, ⟨16, 4⟩, ⟨20, 4⟩, ⟨24, 4⟩, ⟨28, 4⟩]
+      | [] => false) = true := by decide +kernel
+
+/-! ## enum names in configurations (generic: the statement behind fix C12-1) -/
+
+/-- whatever the enum table (names may be shared by several values), the configuration value produced for `v` decodes back to `v` -/
+theorem enum_roundtrip (enums : List (Nat × Nat)) (v : Nat) : decodeCfgVal enums (enumValue enums v) = some v := by
+  simp only [enumValue]
+  split
+  · split
+    · next h => simpa [decodeCfgVal] using h
+    · rfl
+  · rfl
+
+/-- a name is used only when it is the one `get_enum_constant` resolves to this value -/
+theorem enum_name_used_iff (enums : List (Nat × Nat)) (v n : Nat) (h : enumValue enums v = .name n) :
+    enumConstant enums n = some v := by
+  have := enum_roundtrip enums v
+  rw [h] at this
+  exact this
 
 /-! ## export: documented fixed size -/
 
@@ -350,6 +443,135 @@ theorem tz_roundtrip (ws : List Nat) (tail : Bytes) (h : ∀ w ∈ ws, w < 2 ^ 3
 theorem tz_short_binary_refused (n : Nat) (b : Bytes) (h : b.length < 4 * n) : tzParse n b = .error .spsdk := by
   have : n > b.length / 4 := by omega
   simp [tzParse, this]
+
+/-! ## the parsers of FCB / BCA / FCF and the option words of the memory configuration -/
+
+/-- **BCA**: the parser accepts the export of every state whose tag register holds the tag, and restores it -/
+theorem bca_parse_export (tag : Bytes) (ti : Nat) (l : Layout) (vals : Vals) (b : Bytes) (r : RegL) (wf : LayoutWF l)
+    (hb : l.binary = true) (hs : StateOK l vals) (he : exportArea l vals = .ok b)
+    (hr : l.regs[ti]? = some r) (ht : leEnc r.bytes (vals.getD ti 0) = tag) :
+    bcaParse tag ti l b vals = .ok vals := by
+  simp only [bcaParse]
+  rw [area_values_restored l vals b wf hb hs he]
+  exact tagCheck_ok tag ti l vals r hr ht
+
+/-- **FCF**: the parser accepts the export (whose length is the documented one) and restores every value -/
+theorem fcf_parse_export (minSize : Nat) (l : Layout) (vals : Vals) (b : Bytes) (wf : LayoutWF l)
+    (hb : l.binary = true) (hs : StateOK l vals) (he : exportArea l vals = .ok b) (hm : minSize ≤ l.exportLen) :
+    fcfParse minSize l b vals = .ok vals := by
+  obtain ⟨b', he', hlen⟩ := area_export_size l vals wf hb hs
+  rw [he] at he'; cases he'
+  have : ¬ b.length < minSize := by omega
+  simp only [fcfParse, this, if_false]
+  rw [area_values_restored l vals b wf hb hs he]
+
+/-- **FCB**, plain image: accepted and restored over the WHOLE block of whatever memory type (no fixed 0x200 window) -/
+theorem fcb_parse_export (minSize : Nat) (tag : Bytes) (ti : Nat) (l : Layout) (vals : Vals) (b : Bytes) (r : RegL)
+    (wf : LayoutWF l) (hb : l.binary = true) (hs : StateOK l vals) (he : exportArea l vals = .ok b)
+    (hm : minSize ≤ l.exportLen) (hr : l.regs[ti]? = some r) (ho : r.off = 0) (hl : r.bytes = tag.length)
+    (ht : leEnc r.bytes (vals.getD ti 0) = tag) (hsw : tag ≠ swapPairs tag) :
+    fcbParse minSize tag ti l b vals = .ok vals := by
+  obtain ⟨b', he', hlen⟩ := area_export_size l vals wf hb hs
+  rw [he] at he'; cases he'
+  have h1 : ¬ b.length < minSize := by omega
+  have hsl := (rv_pick (area_export_register_bytes l vals b wf hb hs he) hr)
+  have htk : b.take tag.length = tag := by
+    have : slice b r.off r.bytes = tag := by rw [hsl, ht]
+    simpa [slice, ho, hl] using this
+  simp only [fcbParse, h1, if_false, htk, if_neg hsw]
+  rw [area_values_restored l vals b wf hb hs he]
+  exact tagCheck_ok tag ti l vals r hr ht
+
+/-- **FCB**, byte-swapped image (as some tools store it): detected by the swapped tag, swapped back, accepted and restored -/
+theorem fcb_parse_swapped (minSize : Nat) (tag : Bytes) (ti : Nat) (l : Layout) (vals : Vals) (b : Bytes) (r : RegL)
+    (wf : LayoutWF l) (hb : l.binary = true) (hs : StateOK l vals) (he : exportArea l vals = .ok b)
+    (hm : minSize ≤ l.exportLen) (hr : l.regs[ti]? = some r) (ho : r.off = 0) (hl : r.bytes = tag.length) (h4 : tag.length = 4)
+    (ht : leEnc r.bytes (vals.getD ti 0) = tag) (hev : l.exportLen % 2 = 0) (h4l : 4 ≤ l.exportLen) :
+    fcbParse minSize tag ti l (swapPairs b) vals = .ok vals := by
+  obtain ⟨b', he', hlen⟩ := area_export_size l vals wf hb hs
+  rw [he] at he'; cases he'
+  obtain ⟨hsl1, hsl2⟩ := swapPairs_spec b
+  have h1 : ¬ (swapPairs b).length < minSize := by rw [hsl1]; omega
+  have hsl := (rv_pick (area_export_register_bytes l vals b wf hb hs he) hr)
+  have htk : b.take tag.length = tag := by
+    have : slice b r.off r.bytes = tag := by rw [hsl, ht]
+    simpa [slice, ho, hl] using this
+  have htk' : (swapPairs b).take tag.length = swapPairs tag := by
+    rw [h4, swapPairs_take4 b (by omega), ← h4, htk]
+  have hsb : swapBytes (swapPairs b) = .ok b := by
+    simp [swapBytes, hsl1, hlen, hev, hsl2]
+  simp only [fcbParse, h1, if_false, htk', if_true, hsb]
+  rw [area_values_restored l vals b wf hb hs he]
+  exact tagCheck_ok tag ti l vals r hr ht
+
+/-- **memory configuration**: the option words that count (what `blhost configure-memory` receives), written with
+    `option_words_to_bytes` and parsed into any object of the same peripheral, give the same option words again -/
+theorem memcfg_parse_option_words (rule fi ud : Nat) (l : Layout) (vals cur ws : List Nat) (hw : WordsFrom 0 l.regs)
+    (hne : l.regs ≠ []) (hs : StateOK l vals) (hc : l.regs.length = cur.length)
+    (how : optionWords [rule, 0, fi, ud] l vals = .ok ws) :
+    optionWords [rule, 0, fi, ud] l (parseArea l (owBytes ws) cur) = .ok ws := by
+  simp only [optionWords] at how
+  cases hn : owCount [rule, 0, fi, ud] l vals with
+  | error e => rw [hn] at how; cases how
+  | ok n =>
+    rw [hn] at how
+    simp only [Except.ok.injEq] at how
+    have hpos := owCount_pos rule fi ud l vals n hne hn
+    have hlv : l.regs.length = vals.length := hs.length
+    have hb : ∀ w ∈ ws, w < 2 ^ 32 := by
+      intro w hwm
+      rw [← how] at hwm
+      exact stateOK_words hw hs w (List.mem_of_mem_take hwm)
+    have hwl : ws.length = min n vals.length := by rw [← how]; simp
+    have hp : parseArea l (owBytes ws) cur = ws ++ cur.drop ws.length := by
+      have := parseAux_words l.regs [] ws cur (by simpa using hw) hb hc
+      simp only [List.nil_append] at this
+      rw [parseArea, this, List.take_of_length_le (by omega), Nat.min_eq_left (by omega)]
+    have hvpos : 1 ≤ vals.length := by
+      rw [← hlv]; cases hr : l.regs with | nil => exact absurd hr hne | cons _ _ => simp
+    have h0 : (ws ++ cur.drop ws.length).getD 0 0 = vals.getD 0 0 := by
+      rw [← how]
+      cases vals with
+      | nil => simp at hvpos
+      | cons v vs => cases n with
+        | zero => omega
+        | succ m => simp
+    rw [hp]
+    simp only [optionWords]
+    rw [owCount_congr rule fi ud l _ vals h0, hn]
+    simp only [Except.ok.injEq]
+    by_cases hle : n ≤ vals.length
+    · have : ws.length = n := by omega
+      rw [List.take_append_of_le_length (by omega), List.take_of_length_le (by omega)]
+    · have hwv : ws = vals := by rw [← how]; exact List.take_of_length_le (by omega)
+      have : cur.drop ws.length = [] := by
+        apply List.drop_eq_nil_of_le; rw [hwv]; omega
+      rw [this, List.append_nil, List.take_of_length_le (by rw [hwv]; omega)]
+
+
+/-! ### … and the database satisfies the hypotheses of these parser theorems -/
+
+theorem fcb_tag_not_symmetric : Generated.RegLayouts.fcbTag ≠ swapPairs Generated.RegLayouts.fcbTag ∧
+    Generated.RegLayouts.fcbTag.length = 4 := by decide
+
+/-- every FCB layout (each memory type of each family): the tag register is the first word and RESETS to the FCB tag (the
+    export of an unmodified template is accepted - repaired defect C12-2), the block is at least `FCB.SIZE` long and of even
+    length, so `fcb_parse_export` / `fcb_parse_swapped` apply to the whole block of every memory type -/
+theorem gen_fcb_table :
+    (layoutsD.filter (fun ld => ld.1.kind == 6)).all
+      (fun ld => fcbTableB Generated.RegLayouts.fcbSize Generated.RegLayouts.fcbTag ld.1 ld.2) = true := by decide +kernel
+
+/-- every BCA layout: first word = tag register resetting to `kcfg`; every FCF layout is at least `FCF.SIZE` long -/
+theorem gen_bca_fcf_table :
+    (layoutsD.filter (fun ld => ld.1.kind == 4)).all (fun ld => fcbTableB Generated.RegLayouts.bcaSize Generated.RegLayouts.bcaTag ld.1 ld.2) = true ∧
+    (Generated.RegLayouts.layouts.filter (·.kind == 5)).all (fun l => decide (Generated.RegLayouts.fcfSize ≤ l.exportLen)) = true := by
+  constructor <;> decide +kernel
+
+/-- every memcfg peripheral of every family: the option-word count rule of the database is resolvable against the option-word
+    specification it is combined with (rule `OptionSize` needs that bit-field in the first word - repaired defect C12-4), and
+    the option words are visible 32-bit words at offsets 0, 4, 8, … -/
+theorem gen_memcfg_table :
+    (layoutsD.filter (fun ld => ld.1.kind == 9)).all (fun ld => memcfgTableB ld.1 ld.2) = true := by decide +kernel
 
 /-! ## the database: every (family, revision, area) row uses one of the generated layouts, hence … -/
 
